@@ -11,7 +11,7 @@
 From Coq Require Import List String Bool Permutation.
 From SCC Require Import Lang.FunSyn Model.Check Sem.FunTyping Sem.FunErase Proof.CheckWitness Proof.CheckAnn Proof.TypingReject Proof.CheckMono Proof.CheckProof.
 From SCC Require Import Proof.PrintInj Proof.CheckPoly Proof.CheckPolySound Proof.CheckPolyProg Proof.CheckPolyProgC Proof.CheckPolyProof.
-From SCC Require Import Sem.FunNames Sem.FunClosed Proof.CheckInst.
+From SCC Require Import Sem.FunNames Sem.FunClosed Proof.CheckBuild Proof.CheckInst Proof.CheckArity.
 Import ListNotations.
 
 (* Soundness, full statement: `forall p q, check p = COk q -> has_type p`.  False: an ill-formed
@@ -341,3 +341,78 @@ Theorem C15_collect_cannot_panic : forall p st defs st1,
   exists das cos, collect_types st1 (st_types st1) = COk (das, cos).
 Proof. exact (collect_cannot_panic true). Qed.
 Print Assumptions C15_collect_cannot_panic.
+
+(* ---------- arity: a wrong number of type arguments is rejected by the CHECKER at every site ----------
+   [bad_arity ts t] (Proof/CheckArity.v): somewhere inside t (at the top or nested in its arguments) a declared
+   type is applied to a number of arguments different from its number of parameters - too few or too many.
+   One theorem per site; "for all programs" with identifier-like names (every parsed program).  They rest on
+   Ty::check being sound for [wf_ty], whose arity test is an equality: with the model's test
+   `args.len() != params.len()` weakened to `<` the proofs fail (tried: Proof/CheckPoly.v breaks, the theorems of
+   round 1 do not).  Surplus and missing arguments at every syntactic site are the mutation class `type-args`
+   of the correspondence run. *)
+Theorem C15_arity_definition_signature : forall p d t, prog_names_ok p = true -> In d (fdefs (fpdecls p)) ->
+  In t (fdret d :: map fbty (fdctx d)) -> bad_arity (tdecls (fpdecls p)) t -> exists e, check p = CErr e.
+Proof. exact arity_def_signature. Qed.
+Print Assumptions C15_arity_definition_signature.
+Theorem C15_arity_let_annotation : forall p d x vty a b r, prog_names_ok p = true -> In d (fdefs (fpdecls p)) ->
+  occurs (FLet x vty a b r) (fdbody d) -> bad_arity (tdecls (fpdecls p)) vty -> exists e, check p = CErr e.
+Proof. exact arity_let_annotation. Qed.
+Print Assumptions C15_arity_let_annotation.
+Theorem C15_arity_destructor : forall p d s k targs args r, prog_names_ok p = true -> In d (fdefs (fpdecls p)) ->
+  occurs (FDtor s k targs args r) (fdbody d) ->
+  (forall td sg, In td (tdecls (fpdecls p)) -> find_xsig td k = Some sg -> List.length targs <> List.length (td_params td))
+  \/ (exists t, In t targs /\ bad_arity (tdecls (fpdecls p)) t) ->
+  exists e, check p = CErr e.
+Proof. exact arity_destructor. Qed.
+Print Assumptions C15_arity_destructor.
+Theorem C15_arity_case : forall p d s targs c0 cls r, prog_names_ok p = true -> In d (fdefs (fpdecls p)) ->
+  occurs (FCase s targs (c0 :: cls) r) (fdbody d) ->
+  (forall td sg, In td (tdecls (fpdecls p)) -> find_xsig td (clause_xtor c0) = Some sg -> List.length targs <> List.length (td_params td))
+  \/ (exists t, In t targs /\ bad_arity (tdecls (fpdecls p)) t) ->
+  exists e, check p = CErr e.
+Proof. exact arity_case. Qed.
+Print Assumptions C15_arity_case.
+(* constructor and `new` carry no type arguments of their own: the arguments are those of the type they are
+   checked against.  In every state the checker can be in ([tables], [pinv]: established by build_symbol_table,
+   preserved by every step) the check against a declared type with a wrong number of arguments fails. *)
+Theorem C15_arity_constructor : forall ts fs, poly_world ts fs -> forall eager st ctx x args r n targs td,
+  tables ts fs st -> pinv ts st -> ctx_names_ok ctx = true ->
+  term_names_ok (FCtor x args r) = true -> ty_names_ok (FDecl n targs) = true ->
+  find_type ts n = Some td -> List.length targs <> List.length (td_params td) ->
+  exists e, check_term_gen eager (FCtor x args r) st ctx (FDecl n targs) = CErr e.
+Proof. exact arity_constructor. Qed.
+Print Assumptions C15_arity_constructor.
+Theorem C15_arity_new : forall ts fs, poly_world ts fs -> forall eager st ctx cls r n targs td,
+  tables ts fs st -> pinv ts st -> ctx_names_ok ctx = true ->
+  term_names_ok (FNew cls r) = true -> ty_names_ok (FDecl n targs) = true ->
+  find_type ts n = Some td -> List.length targs <> List.length (td_params td) ->
+  exists e, check_term_gen eager (FNew cls r) st ctx (FDecl n targs) = CErr e.
+Proof. exact arity_new. Qed.
+Print Assumptions C15_arity_new.
+(* Ty::check itself *)
+Theorem C15_arity_ty_check : forall ts fs, poly_world ts fs -> forall st t,
+  tables ts fs st -> pinv ts st -> ty_names_ok t = true -> bad_arity ts t -> exists e, ty_check t st = CErr e.
+Proof. exact arity_ty_check. Qed.
+Print Assumptions C15_arity_ty_check.
+(* the types written in data/codata declarations: the SPECIFICATION rejects, for all programs ... *)
+Theorem C15_reject_wrong_type_argument_count_decl_field : forall p td s t,
+  In td (tdecls (fpdecls p)) -> In s (td_xtors td) ->
+  (In t (map fbty (xs_args s)) \/ xs_ret s = Some t) ->
+  bad_arity_in_decl (tdecls (fpdecls p)) (td_params td) t -> has_type_b p = false.
+Proof. exact reject_wrong_type_argument_count_decl_field. Qed.
+Print Assumptions C15_reject_wrong_type_argument_count_decl_field.
+(* ... the checker does not: known finding C15-lazy-declaration-types (witness `data Foo { C(x: List) }`) *)
+Theorem C15_arity_declaration_field_refuted :
+  ~ (forall p td s t, prog_names_ok p = true -> In td (tdecls (fpdecls p)) -> In s (td_xtors td) ->
+       (In t (map fbty (xs_args s)) \/ xs_ret s = Some t) ->
+       bad_arity_in_decl (tdecls (fpdecls p)) (td_params td) t -> exists e, check p = CErr e).
+Proof. exact arity_decl_field_refuted. Qed.
+Print Assumptions C15_arity_declaration_field_refuted.
+(* satisfiable: surplus / missing / nested wrong applications at a signature, a let, a destructor, a case *)
+Example C15_arity_examples :
+  check p_arity_sig = CErr EWrongNumberOfTypeArguments /\ check p_arity_let = CErr EWrongNumberOfTypeArguments
+  /\ check p_arity_dtor = CErr EWrongNumberOfTypeArguments /\ check p_arity_case = CErr EWrongNumberOfTypeArguments
+  /\ prog_names_ok p_arity_sig = true /\ prog_names_ok p_arity_let = true
+  /\ prog_names_ok p_arity_dtor = true /\ prog_names_ok p_arity_case = true.
+Proof. exact arity_examples. Qed.
+Print Assumptions C15_arity_examples.
